@@ -260,6 +260,11 @@ func (f *STFS) Initialize(rootProposal string, rootPerm os.FileMode) (root strin
 				return "", err
 			}
 
+			// A damaged tail must not cost more than the damaged record: keep what could be indexed instead of starting over
+			if root, err := f.metadata.Metadata.GetRootPath(context.Background()); err == nil {
+				return root, nil
+			}
+
 			return mkdirRoot()
 		}
 
